@@ -55,7 +55,7 @@ var assignPool = []string{"focus=main", "focus=a|b", "focus=a", "focus=", "ignor
 	"unit=ms", "unit=minimum", "trim=false", "trim", "trim_path=/src", "trim_path=", "source_path=/work/src", "source_path=/w/other:/w/dir", "source_path=", "divide_by=2", "divide_by=1", "drop_negative", "drop_negative=false", "compact_labels=false", "showcolumns", "showcolumns=false", ":"}
 
 var commandPool = []string{"top", "top 3", "top5", "top -cum", "top 4 main", "top a -b", "top a b -c", "top a -b -c", "top a|b -c", "traces a b -c", "traces a -b -c", "top 2 -cum c", "text", "tree", "tree 3", "peek a|b", "peek main", "traces", "tags", "tags k1", "tags v1 -x", "raw", "comments",
-	"dot", "dot 3", "dot main", "callgrind", "proto", "topproto", "list main", "list a", "weblist a", "disasm a", "top > t.txt", "tree >tree.out", "dot > g.dot", "proto > p.pb.gz", "svg", "o", "help top", "nosuch", "top ("}
+	"dot", "dot 3", "dot main", "callgrind", "proto", "topproto", "list main", "list a", "weblist a", "disasm a", "top > t.txt", "top 2 > t.txt", "traces > t.txt", "tree > t.txt", "tree >tree.out", "dot > g.dot", "proto > p.pb.gz", "svg", "o", "help top", "nosuch", "top ("}
 
 func genHistory(r *rand.Rand) []line {
 	var h []line
@@ -114,7 +114,10 @@ func runInteractive(c *harness.Ctx) harness.Result {
 		lines = append(lines, l.text)
 	}
 	res := harness.Result{NonTrivial: true, Sig: fmt.Sprintf("%d lines %d", len(h), c.Index), Sample: map[string]any{"history": lines, "profile": gen.Describe(p)}}
-	full, err := sess.Run(sess.Spec{Profile: buf.Bytes(), Mode: "interactive", Lines: lines, Dir: c.Tmp + "/full"}, 2*time.Minute)
+	// every other history lets pprof write its output files itself (into the session directory)
+	// instead of handing them to a Writer plug-in
+	osw := c.Index%2 == 1
+	full, err := sess.Run(sess.Spec{Profile: buf.Bytes(), Mode: "interactive", Lines: lines, Dir: c.Tmp + "/full", OSWriter: osw}, 2*time.Minute)
 	if err != nil {
 		return harness.Result{Verdict: harness.Inconclusive, Detail: "session: " + err.Error()}
 	}
@@ -136,7 +139,7 @@ func runInteractive(c *harness.Ctx) harness.Result {
 			continue
 		}
 		replay := append(append([]string{}, assigns...), l.text)
-		fresh, err := sess.Run(sess.Spec{Profile: buf.Bytes(), Mode: "interactive", Lines: replay, Dir: fmt.Sprintf("%s/fresh%d", c.Tmp, i)}, 2*time.Minute)
+		fresh, err := sess.Run(sess.Spec{Profile: buf.Bytes(), Mode: "interactive", Lines: replay, Dir: fmt.Sprintf("%s/fresh%d", c.Tmp, i), OSWriter: osw}, 2*time.Minute)
 		if err != nil {
 			return harness.Result{Verdict: harness.Inconclusive, Detail: "fresh session: " + err.Error()}
 		}
@@ -256,7 +259,7 @@ func init() {
 		ID:          "C10",
 		Level:       "exploration",
 		CaseTimeout: 15 * time.Minute,
-		Rule:        "part interactive: histories of 5-20 lines mixing 42 report commands (with focus/ignore arguments, node counts, -cum, >file, mutating reports: hide/show/show_from/prune_from/tagroot/tagleaf/granularity/noinlines/callgrind/tags/list/weblist/disasm) and 84 option assignments (incl. shortcuts and ':'), run in one fresh child process with per-line transcripts (stdout, UI prints, UI errors, files written); for EVERY command the same command is run in another fresh process that only replays the assignments preceding it, and the transcripts must be byte-equal (temporary-file counters normalised, saved profiles compared by content). part web: request histories over /top / /peek /flamegraph /source /disasm /download with query configs, sequential or from 2-6 concurrent clients against one server; every response must equal the response to the same request sent first to a fresh server. The very *profile.Profile object handed to pprof is fingerprinted after every command/request and must never change. non-trivial = every case; distinct = case",
+		Rule:        "part interactive: histories of 5-20 lines mixing 45 report commands (with focus/ignore arguments, node counts, -cum, >file, mutating reports: hide/show/show_from/prune_from/tagroot/tagleaf/granularity/noinlines/callgrind/tags/list/weblist/disasm) and 84 option assignments (incl. shortcuts and ':'), run in one fresh child process with per-line transcripts (stdout, UI prints, UI errors, files written or changed - captured by a Writer plug-in or, for every other history, written by pprof itself into the session directory); for EVERY command the same command is run in another fresh process that only replays the assignments preceding it, and the transcripts must be byte-equal (temporary-file counters normalised, saved profiles compared by content). part web: request histories over /top / /peek /flamegraph /source /disasm /download with query configs, sequential or from 2-6 concurrent clients against one server; every response must equal the response to the same request sent first to a fresh server. The very *profile.Profile object handed to pprof is fingerprinted after every command/request and must never change. non-trivial = every case; distinct = case",
 		Assumptions: []string{"the only state a command may depend on is the sequence of option assignments before it", "saveconfig/deleteconfig are excluded here (C19)"},
 		Parts: []harness.Part{
 			{Name: "interactive", Quick: 500, Thor: 10000, Run: runInteractive},
